@@ -26,6 +26,7 @@ import PfVerif.Driver.MultiSession
 import PfVerif.Driver.Autogreek
 import PfVerif.Driver.Hooks
 import PfVerif.Driver.CritTensor
+import PfVerif.Driver.Factory
 namespace PfVerif.Driver
 open Lean
 
@@ -78,6 +79,7 @@ def dispatch (op : String) (j : Json) : R Json :=
   | "autogreek" => opAutogreek j
   | "hooked_hedge" => opHookedHedge j
   | "crit_tensor" => opCritTensor j
+  | "factory" => opFactory j
   | _ => .error s!"unknown op {op}"
 
 end PfVerif.Driver
